@@ -390,6 +390,12 @@ impl Request {
         &mut self,
         raw_message: &[u8],
     ) -> Result<(ParseStatusInternal, usize), Error> {
+        // A trailing carriage return cannot be judged until the next byte
+        // arrives, so hold it back rather than count it against line limits.
+        let raw_message = match raw_message {
+            [head @ .., b'\r'] => head,
+            _ => raw_message,
+        };
         let parse_results =
             self.headers.parse(raw_message).map_err(Error::Headers)?;
         self.count_bytes(parse_results.consumed)?;
